@@ -25,7 +25,20 @@ def k_tailcall_after_add(script, ln, impl_line, desc):
     m = script.meta.get(ln, {})
     return bool(m.get("k2"))
 
-KNOWN = {"S19_x86_tailcall_after_add_rsp": k_tailcall_after_add}
+def big_bp(f):
+    """x86_64 frameless entry whose saved rbp lies more than 32767 words above rsp in the body: OffsetSpAndRestoreBp cannot
+    hold the slot (i16) and compact unwinding has no uncompressed path"""
+    from machotruth import RBP
+    if f.arch != "x86" or f.dwarf or getattr(f, "frame", True) or RBP not in (getattr(f, "saved", None) or []):
+        return False
+    size = f.alloc + 8 * (len(f.saved) + 1)
+    return (size - 16 - 8 * f.saved.index(RBP)) // 8 > 32767
+
+def k_big_bp(script, ln, impl_line, desc):
+    m = script.meta.get(ln, {})
+    return bool(m.get("k3"))
+
+KNOWN = {"S19_x86_tailcall_after_add_rsp": k_tailcall_after_add, "S21_x86_frameless_rbp_slot_beyond_i16": k_big_bp}
 
 def generate(rng, tier):
     out = []
@@ -56,13 +69,14 @@ def generate(rng, tier):
             k2 = False
             if arch == "x86" and inner["insn"] == "jmp" and inner["index"] > 0 and f.insns[inner["index"] - 1][1].kind == "add":
                 k2 = True
+            k3 = any(big_bp(x["func"]) for x in fr)          # a frame of the known finding S21 anywhere in the chain derails the walk
             chain = [[(x["ra"] & mask) if arch == "a64" else x["ra"], x["caller"][0], x["caller"][1]] for x in fr[:-1]]
             s.add("newcache C")
             ln = s.add("trace U C %s %s %s %d" % (hx(inner["pc"]), regs_of(inner), mid, len(fr) + 3),
                        tag="walk:%s:%s:%s:%s" % (arch, f.shape, inner["phase"], inner["insn"]))
-            s.meta[ln] = {"chain": chain, "k2": k2}
+            s.meta[ln] = {"chain": chain, "k2": k2, "k3": k3}
             li = s.add("iter U C %s %s %s %d 0" % (hx(inner["pc"]), regs_of(inner), mid, len(fr) + 2))
-            s.meta[li] = {"chain_iter": [c[0] for c in chain], "k2": k2}
+            s.meta[li] = {"chain_iter": [c[0] for c in chain], "k2": k2, "k3": k3}
             s.add("newcache D")
             for j, x in enumerate(fr):
                 kind = "ip" if x["kind"] == "first" else "ra"
@@ -70,7 +84,7 @@ def generate(rng, tier):
                     ln = s.add("unwind U D %s %s %s %s" % (kind, hx(x["pc"]), regs_of(x), mid),
                                tag="step:%s:%s:%s:%s" % (arch, x["func"].shape, x.get("phase", "caller"), "warm" if rep else "fresh"))
                     s.meta[ln] = {"ra": (x["ra"] & mask) if arch == "a64" else x["ra"], "caller": list(x["caller"]) if x["caller"] else None,
-                                  "arch": arch, "k2": k2 and j == 0}
+                                  "arch": arch, "k2": k2 and j == 0, "k3": big_bp(x["func"])}
         # stubs and stub helpers (first frames only)
         lo, hi = prog["stubs"]
         hlo, hhi = prog["helper"]
